@@ -241,7 +241,18 @@ double toDouble(const std::string& s, char dec, char scientificNotation)
 {
   if (!isDecimalNumber(s, dec, scientificNotation))
     throw Exception("TextTools::toDouble(). Invalid number specification: " + s);
-  return fromString<double>(s);
+  if (dec == '.' && (scientificNotation == 'e' || scientificNotation == 'E'))
+    return fromString<double>(s);
+  // The stream conversion only knows '.' and 'e': translate the configured characters.
+  std::string t(s);
+  for (auto& c : t)
+  {
+    if (c == scientificNotation)
+      c = 'e';
+    else if (c == dec)
+      c = '.';
+  }
+  return fromString<double>(t);
 }
 
 /******************************************************************************/
